@@ -24,6 +24,7 @@ type Sess struct {
 	HandleReturned bool
 	HandleStamp    vsched.Stamp
 	tag            uint16
+	done           chan struct{}
 }
 
 // NewServer creates a server over fs.
@@ -32,11 +33,14 @@ func NewServer(fs *memfs.FS) *p9.Server { return p9.NewServer(fs) }
 // Connect opens a new connection to srv and starts Handle in its own thread.
 func Connect(fs *memfs.FS, srv *p9.Server, name string) *Sess {
 	cc, sc := vpipe.NewConnPair(name)
-	s := &Sess{FS: fs, Srv: srv, CC: cc, SC: sc, Peer: rawpeer.New(cc)}
+	s := &Sess{FS: fs, Srv: srv, CC: cc, SC: sc, Peer: rawpeer.New(cc), done: make(chan struct{})}
 	vsched.GoNamed("handle:"+name, func() {
 		srv.Handle(sc, sc)
-		s.HandleReturned = true
 		s.HandleStamp = vsched.MakeStamp()
+		s.HandleReturned = true
+		if vsched.Free() {
+			close(s.done)
+		}
 	})
 	return s
 }
@@ -86,3 +90,14 @@ func (s *Sess) Open(fid uint32, flags uint32) { s.OK(rawpeer.Tlopen(s.Tag(), fid
 
 // Hangup closes the client end.
 func (s *Sess) Hangup() { s.CC.Close() }
+
+// WaitDone blocks until Server.Handle has returned for this connection. In
+// free mode it must be called before any controlled execution starts, so
+// that no free-running goroutine is left behind.
+func (s *Sess) WaitDone() {
+	if vsched.Free() {
+		<-s.done
+		return
+	}
+	vsched.StepWhen(vsched.Op{Label: "wait-handle-return"}, func() bool { return s.HandleReturned })
+}
